@@ -12,7 +12,7 @@ RULE = ('simulated sessions (DESIGN.md section 4): the unmodified Server with it
         'optionally combined with up to 3 stalls (freeze main / one seat thread / one client from its k-th scheduling '
         'point for n steps or until nothing else can run), plus the sequential schedule; 1-3 boards (quick) / 1-6 '
         '(thorough) incl. all-passed-out and mixed lists, generated deals, legal auctions, plays (revokes included), '
-        'client formatting and arrival order. Oracle: the run ends completed - Server.run returned without exception, '
+        'client formatting and arrival order; in a quarter of the runs the four players are the bundled Client with generated legal policies. Oracle: the run ends completed - Server.run returned without exception, '
         'every seat thread finished without exception, every client read "End of session", the log is complete JSON '
         'holding every board; "no task enabled while one is unfinished" is a deadlock = violation (replay = scenario + '
         'explicit schedule trace). evaluations = sessions run. Non-trivial = completed run in which some enabled task '
@@ -26,10 +26,12 @@ def plan(tier):
     n, per = (16, 220) if tier == 'quick' else (16, 6000)
     mb = 3 if tier == 'quick' else 6
     sh = [{'kind': 'sessions', 'n': per, 'max_boards': mb, 'play_prob': 3 if i % 4 else 1} for i in range(n)]
+    nb, perb = (5, 100) if tier == 'quick' else (8, 3000)
+    sh += [{'kind': 'bundled', 'n': perb, 'max_boards': mb} for _ in range(nb)]      # the bundled Client as the four players
     return sh
 
 
-def check_session(scenario, schedule, stats=None, **kw):
+def check_ref_session(scenario, schedule, stats=None, **kw):
     r = SE.run_case(scenario, schedule)
     SE.first_problem(SE.completion_problems(scenario, r), scenario, schedule, r)
     if stats is not None:
@@ -47,8 +49,19 @@ def check_session(scenario, schedule, stats=None, **kw):
     return r
 
 
+def check_session(scenario, schedule, stats=None, policy=None, **kw):
+    if policy is not None:
+        return SE.check_bundled(scenario, schedule, policy, stats)
+    return check_ref_session(scenario, schedule, stats)
+
+
 def run_shard(spec, seed, tier, stats):
-    v = run_hypothesis(lambda scenario, schedule: check_session(scenario, schedule, stats),
+    if spec['kind'] == 'bundled':
+        v = run_hypothesis(lambda scenario, schedule, policy: SE.check_bundled(scenario, schedule, policy, stats),
+                           {'scenario': SE.bundled_scenario(spec['max_boards']), 'schedule': SE.SCHEDULE(), 'policy': SE.POLICY},
+                           seed, spec['n'], tier == 'thorough')
+        return [v] if v else []
+    v = run_hypothesis(lambda scenario, schedule: check_ref_session(scenario, schedule, stats),
                        {'scenario': SE.SCENARIO(1, spec['max_boards'], spec['play_prob']), 'schedule': SE.SCHEDULE()},
                        seed, spec['n'], tier == 'thorough')
     return [v] if v else []
